@@ -53,33 +53,33 @@ def get(prop):
 
 
 def _C10():
-    return {"arms": [_hist("C10", 24000, 900000)], "level": "exploration", "rule": RULE_HIST,
+    return {"arms": [_hist("C10", 24000, 450000)], "level": "exploration", "rule": RULE_HIST,
             "assumptions": ASSUME_REF, "real_stub": REAL_STUB_PY}
 
 
 def _C11():
-    return {"arms": [_hist("C11", 24000, 900000)], "level": "exploration", "rule": RULE_HIST,
+    return {"arms": [_hist("C11", 24000, 450000)], "level": "exploration", "rule": RULE_HIST,
             "assumptions": ASSUME_REF, "real_stub": REAL_STUB_PY}
 
 
 def _C01():
-    return {"arms": [_hist("C01", 30000, 1200000)], "level": "exploration", "rule": RULE_HIST,
+    return {"arms": [_hist("C01", 30000, 500000)], "level": "exploration", "rule": RULE_HIST,
             "assumptions": ASSUME_REF, "real_stub": REAL_STUB_PY}
 
 
 def _C02():
     from props import linkpy
-    return {"arms": [_hist("C02", 30000, 1200000), Arm(linkpy, "linkpy", 4000, 150000, label="S-LINK/py control arm")], "level": "exploration", "rule": RULE_HIST,
+    return {"arms": [_hist("C02", 30000, 500000), Arm(linkpy, "linkpy", 4000, 60000, label="S-LINK/py control arm")], "level": "exploration", "rule": RULE_HIST,
             "assumptions": ASSUME_REF, "real_stub": REAL_STUB_PY}
 
 
 def _C18():
-    return {"arms": [_hist("C18", 30000, 1200000), _cpp("C18", 48, 2000)], "level": "exploration", "rule": RULE_HIST,
+    return {"arms": [_hist("C18", 30000, 500000), _cpp("C18", 48, 1000)], "level": "exploration", "rule": RULE_HIST,
             "assumptions": ASSUME_REF, "real_stub": REAL_STUB_PY}
 
 
 def _C19():
-    return {"arms": [_hist("C19", 30000, 1200000), _cpp("C19", 48, 2000)], "level": "exploration", "rule": RULE_HIST,
+    return {"arms": [_hist("C19", 30000, 500000), _cpp("C19", 48, 1000)], "level": "exploration", "rule": RULE_HIST,
             "assumptions": ASSUME_REF, "real_stub": REAL_STUB_PY}
 
 
@@ -94,7 +94,7 @@ RULE_LINK = ("each run draws a schema and 1-2 values, encodes them with the refe
 
 def _C06():
     from props import linkpy
-    return {"arms": [Arm(linkpy, "linkpy", 1600, 60000, label="S-LINK/py")], "level": "fault_enumeration",
+    return {"arms": [Arm(linkpy, "linkpy", 1600, 30000, label="S-LINK/py")], "level": "fault_enumeration",
             "rule": RULE_LINK,
             "assumptions": ASSUME_REF + [
                 "step clock = line events in frames of /repo and generated modules; budget 4000 + 400 per input byte "
@@ -116,7 +116,7 @@ RULE_ORDER = ("each run draws an acyclic definition set (constants over constant
 
 def _C15():
     from props import order
-    return {"arms": [Arm(order, "order", 9000, 400000, label="S-ORDER")], "level": "exploration", "rule": RULE_ORDER,
+    return {"arms": [Arm(order, "order", 9000, 250000, label="S-ORDER")], "level": "exploration", "rule": RULE_ORDER,
             "assumptions": ASSUME_REF + [
                 "the dependency relation is computed from the schema AST by the harness (props/order.py), not from "
                 "prophyc's dependencies()", "isar renderings avoid greedy arrays and bytes (not expressible without a patch)",
@@ -126,8 +126,8 @@ def _C15():
 
 def _C04():
     from props import order
-    return {"arms": [Arm(order, "order", 6000, 300000, label="S-ORDER"), _hist("C04", 12000, 500000),
-                     _cpp("C04", 32, 1500)],
+    return {"arms": [Arm(order, "order", 6000, 150000, label="S-ORDER"), _hist("C04", 12000, 250000),
+                     _cpp("C04", 32, 800)],
             "level": "exploration",
             "rule": RULE_ORDER + "; second arm (S-HIST worlds): every struct/union of every prophy-language world is "
                     "compared (prophyc model node and generated Python class vs reference layout) and every encoding of a "
@@ -149,7 +149,7 @@ RULE_FS = ("each run draws a schema, assigns its declarations to 2-5 files (neve
 
 def _C16():
     from props import fsim
-    return {"arms": [Arm(fsim, "fs", 2400, 100000, label="S-FS")], "level": "exploration", "rule": RULE_FS,
+    return {"arms": [Arm(fsim, "fs", 2400, 50000, label="S-FS")], "level": "exploration", "rule": RULE_FS,
             "assumptions": ASSUME_REF + [
                 "include search rule as stated in docs/schema.rst: directory of the including file first, then -I "
                 "directories in command-line order",
@@ -169,7 +169,7 @@ RULE_DET = ("each run draws a schema of >= 6 definitions, splits it into a commo
 
 def _C20():
     from props import det
-    return {"arms": [Arm(det, "det", 160, 4000, label="S-DET")], "level": "exploration", "rule": RULE_DET,
+    return {"arms": [Arm(det, "det", 160, 2500, label="S-DET")], "level": "exploration", "rule": RULE_DET,
             "assumptions": ["PYTHONHASHSEED values are explicit integers (never 'random', which could not be replayed)",
                             "the sack (libclang) front-end is not exercised: python bindings for clang are not installed "
                             "in /venv"],
@@ -193,7 +193,7 @@ RULE_COMP = ("each run draws a valid schema in prophy or isar syntax and applies
 
 def _C13():
     from props import comp
-    return {"arms": [Arm(comp, "comp", 14000, 400000, label="S-COMP")], "level": "exploration", "rule": RULE_COMP,
+    return {"arms": [Arm(comp, "comp", 14000, 250000, label="S-COMP")], "level": "exploration", "rule": RULE_COMP,
             "assumptions": [
                 "the designed error channel is prophyc.ProphycError (emit.error) and SystemExit (argparse)",
                 "for prophy-language input without I/O fault or patch every other exception escaping prophyc.main is a "
@@ -236,17 +236,17 @@ def _cpp(prop, q, t):
 
 
 def _C03():
-    return {"arms": [_cpp("C03", 64, 2000)], "level": "exploration", "rule": RULE_CPP, "assumptions": ASSUME_CPP,
+    return {"arms": [_cpp("C03", 64, 1200)], "level": "exploration", "rule": RULE_CPP, "assumptions": ASSUME_CPP,
             "real_stub": REAL_STUB_CPP}
 
 
 def _C05():
-    return {"arms": [_cpp("C05", 64, 2000)], "level": "exploration", "rule": RULE_CPP, "assumptions": ASSUME_CPP,
+    return {"arms": [_cpp("C05", 64, 1200)], "level": "exploration", "rule": RULE_CPP, "assumptions": ASSUME_CPP,
             "real_stub": REAL_STUB_CPP}
 
 
 def _C07():
-    return {"arms": [_cpp("C07", 64, 2000)], "level": "fault_enumeration", "rule": RULE_CPP, "assumptions": ASSUME_CPP,
+    return {"arms": [_cpp("C07", 64, 1200)], "level": "fault_enumeration", "rule": RULE_CPP, "assumptions": ASSUME_CPP,
             "real_stub": REAL_STUB_CPP}
 
 
@@ -264,7 +264,7 @@ RULE_RULES = ("each run draws a valid schema (features the C++ generators accept
 
 def _C12():
     from props import rules
-    return {"arms": [Arm(rules, "rules", 8000, 200000, label="S-COMP/rules"), _cpp("C12", 16, 600)],
+    return {"arms": [Arm(rules, "rules", 8000, 120000, label="S-COMP/rules"), _cpp("C12", 16, 400)],
             "level": "exploration", "rule": RULE_RULES + "; second arm: the worlds of the C++ peer simulation (generated "
             "C++ full codec built with clang++ against the shipped headers)",
             "assumptions": ["the rule list is a transcription of the notes in docs/schema.rst and docs/encoding.rst",
